@@ -497,4 +497,36 @@ theorem step_total_all {s : St} (g : Good s) {op : Op} (va : ValidArgs s op)
     obtain ⟨r, hr⟩ := printf_some h V.1 f
     simp only [hr, Option.map_some]; exact ⟨_, rfl⟩
 
+/-! ### the invariant along histories -/
+
+theorem good_step {s s' : St} (g : Good s) {op : Op} (e : step s op = some s') : Good s' := by
+  obtain ⟨val, E, _⟩ := step_ok g e
+  have hu : userVars s' = userVars s := by simp only [userVars, E.n]
+  refine ⟨E.inv, fun u hu' => ?_⟩
+  rw [hu] at hu'
+  have hne : u ≠ op.target := by
+    intro x; subst x
+    -- the target of a call that did not fail is a user variable
+    have : validVar s op.target = true := by
+      cases op <;> simp only [step] at e <;> split at e <;> first | (rename_i c; first | exact c.1 | exact c) | cases e
+    have := (valid_facts this).2.1
+    have : op.target < userVars s := by
+      have h2 : validVar s op.target = true := by assumption
+      unfold validVar at h2; exact of_decide_eq_true h2
+    omega
+  rw [E.other u hne]; exact g.temps u hu'
+
+theorem good_run {s s' : St} (g : Good s) : ∀ {ops : List Op}, run s ops = some s' → Good s'
+  | [], e => by simp only [run, Option.some.injEq] at e; subst e; exact g
+  | op :: ops, e => by
+    simp only [run, Option.bind_eq_some_iff] at e
+    obtain ⟨s1, h1, e⟩ := e
+    exact good_run (good_step g h1) e
+
+
+theorem validArgs_congr {s s1 : St} (hn : s1.n = s.n) (hr : s1.regs = s.regs) (op : Op) :
+    ValidArgs s1 op ↔ ValidArgs s op := by
+  cases op <;> simp only [ValidArgs, validVar, userVars, hn, hr] <;> exact Iff.rfl
+
+
 end Nstd.Str
